@@ -437,6 +437,7 @@ def run(ctx):
                        "(advance, receive from out / exx, cancel, census, call log): keeping-up consumer, cancel at every point, slow/bursty/random consumers; "
                        "non-trivial = at least one value received (Emit: and time advanced); distinct by script text")
     ctx.assumptions += ls.ASSUME[:2] + ls.ASSUME[3:] + ASSUME
+    ls.regen_stages(ctx, pipe=False, fork=False, sources=True)
     ctx.prove()
     if ctx.thorough():
         ctx.leanchecker()
